@@ -147,6 +147,8 @@ def as_iter(it, v):
         tgt = it.load_ref(v)
         if isinstance(tgt, tuple) and tgt[0] == "iter":
             return tgt[1]
+        if isinstance(tgt, tuple) and tgt[0] == "array" and len(tgt) > 2 and tgt[2] == "window":
+            return ListIt(list(tgt[1]))
         if isinstance(tgt, tuple) and tgt[0] == "array":
             return ListIt([("ref", v[1], v[2], list(v[3]) + [{"ci": i, "ml": 0, "fe": False}]) for i in range(len(tgt[1]))])
         raise A.Undecided("into_iter on a reference to %r" % (tgt,))
